@@ -472,6 +472,7 @@ pub fn workload(name: &str, tier: &str) -> Option<Box<dyn Workload>> {
     match name {
         "c16" => Some(Box::new(c16::Positions::new(quick))),
         "c01rec" => Some(Box::new(c01::RecGraphs { n: if quick { 10_000 } else { 300_000 } })),
+        "c10deep" => Some(Box::new(c10::Deep { n: std::env::var("OALV_DEEP_N").ok().and_then(|v| v.parse().ok()).unwrap_or(if quick { 60_000 } else { 150_000 }) })),
         "c16nav" => Some(Box::new(c16::LspRanges { n: if quick { 100 } else { 3000 } })),
         "miri" => Some(Box::new(miri::MiriCases)),
         "c13" => Some(Box::new(c13::Workspaces {
